@@ -30,7 +30,7 @@ def beh(kind='relay', tseq=(), skip=(), slow=False, lazy=False, ren=(), hid=Fals
 
 
 class Topo:
-    def __init__(self, name, filters, *, maxseq=2, conn_ticks=0, pub_hwm=8, push_hwm=3, handshake=True,
+    def __init__(self, name, filters, *, maxseq=2, conn_ticks=0, pub_hwm=20, push_hwm=3, handshake=True,
                  topic_order=('main', 'b', 'c', HTOPIC)):
         """filters: ordered dict name -> dict(srcs=[src...], nout=int, outbal=bool, srcbal=bool, required=[...], beh=beh())"""
         self.name = name
@@ -125,6 +125,11 @@ class Topo:
                  'cRequired == ' + self._fn(lambda f: self._set(F[f]['required'])),
                  'cBeh == ' + self._fn(lambda f: rbeh(F[f]['beh'])),
                  'cFIdx == ' + self._fn(lambda f: str(self.fidx[f])),
+                 'NoExit == 0 - 1',
+                 'cExitAt == ' + self._fn(lambda f: 'NoExit' if F[f].get('exit_at', -1) < 0 else str(F[f]['exit_at'])),
+                 'cExitKind == ' + self._fn(lambda f: S(F[f].get('exit_kind', 'clean'))),
+                 'cPropExit == ' + self._fn(lambda f: self._set(F[f].get('prop_exit', []))),
+                 'cObeyExit == ' + self._fn(lambda f: self._set(F[f].get('obey_exit', []))),
                  'cTopicOrder == <<' + ', '.join(S(t) for t in self.topic_order) + '>>',
                  extra_defs,
                  '====']
@@ -141,6 +146,7 @@ class Topo:
                  f'  Defects = {self._set(defects)}', f'  MaxFaults = {max_faults}',
                  f'  FaultKinds = {self._set(fault_kinds)}', f'  Victims = {self._set(victims)}',
                  f'  CheckC03 = {str(check_c03).upper()}',
+                 '  ExitAt <- cExitAt', '  ExitKind <- cExitKind', '  PropExit <- cPropExit', '  ObeyExit <- cObeyExit',
                  f'SPECIFICATION {spec}']
         if view:
             lines.append('VIEW view')
@@ -204,6 +210,10 @@ def load_real():
 
 class Idle(BaseException):
     pass
+
+
+class SeededFault(RuntimeError):
+    """the error a filter raises on purpose when the topology says it ends by an error (ExitKind = "error")"""
 
 
 class SimPipeline:
@@ -286,7 +296,16 @@ class SimPipeline:
 
             def process(self_, frames):
                 w = run.world
+                xat = d.get('exit_at', -1)
+
+                def end():
+                    w.emit('selfexit', f, d.get('exit_kind', 'clean'), w.step_no)
+                    if d.get('exit_kind', 'clean') == 'error':
+                        raise SeededFault(f'{f} ends by an error')
+                    self_.exit(f'{f} ends itself')
                 if b['kind'] == 'origin':
+                    if xat >= 0 and run.oseq[f] == xat and run.oseq[f] <= topo.maxseq:
+                        end()
                     if run.oseq[f] > topo.maxseq:
                         w.cur.park(('idle',))          # exhausted: never runnable again
                         raise Idle()
@@ -309,6 +328,9 @@ class SimPipeline:
                        'bal': None if st is None else st.balanced, 'frames': seen, 'step': w.step_no}
                 run.delivered[f].append(rec)
                 w.emit('deliver', f, rec)
+                qs0 = [v[1] for v in seen.values() if v is not None]
+                if xat >= 0 and qs0 and min(qs0) == xat:
+                    end()
                 if b['slow']:
                     w.sleep(run.work_ms / 1000)
                 if not d['nout']:
@@ -328,10 +350,14 @@ class SimPipeline:
     def _spawn(self, f):
         cls, cfg = self.classes[f], self._config(f)
 
+        d = self.topo.filters[f]
+        pol = lambda ks: {frozenset(): 'none', frozenset({'clean'}): 'clean', frozenset({'error'}): 'error',
+                          frozenset({'clean', 'error'}): 'all'}[frozenset(ks)]
+
         def fn():
             try:
-                cls.run(cfg, sig_stop=False, prop_exit='none', obey_exit='none')
-            except Idle:
+                cls.run(cfg, sig_stop=False, prop_exit=pol(d.get('prop_exit', ())), obey_exit=pol(d.get('obey_exit', ())))
+            except (Idle, SeededFault):
                 pass
         t = self.world.spawn(f, fn)
         t.inc = self.incs[f]
@@ -450,7 +476,7 @@ class SimPipeline:
         kind = {-2: 'oob', -3: 'close', -4: 'hello'}.get(mid, 'topics' if topic == '//' else 'data')
         t = topic[:-1]
         t = t[1:] if t.startswith('/') else t
-        return (kind, mid, '' if kind != 'data' else t)
+        return (kind, mid, t if kind == 'data' else (str(env.get('xtra') or '') if kind == 'oob' else ''))
 
     def project(self):
         topo = self.topo
@@ -512,7 +538,7 @@ def model_project(topo: Topo, s):
         st['pubq'][c] = [hdr(m) for m in seq(s['pubq'][c])]
         st['subq'][c] = [hdr(m) for m in seq(s['subq'][c])]
         st['reqq'][c] = [(m['mid'], m['new'], m['eph']) for m in seq(s['reqq'][c])]
-        if dead:
+        if dead or s['pc'][c[0]] in ('x_close2', 'done'):
             st['rsrc'][c] = None
             continue
         r = seq(s['rsrc'][c[0]])[c[1] - 1]
@@ -587,6 +613,9 @@ def replay(topo: Topo, behaviour, pipe: SimPipeline = None, compare=True):
             continue
         if compare and not model_internal(topo, b, topo.maxseq):
             real, mod = pipe.project(), model_project(topo, b)
+            for c in topo.conns():       # a filter that is shutting down: its receive buffers are no longer meaningful
+                if b['pc'][c[0]] in ('x_close1', 'x_close2', 'done'):
+                    real['rsrc'][c] = mod['rsrc'][c] = None
             if real != mod:
                 diff = {key: {str(k2): (real[key].get(k2), mod[key].get(k2)) for k2 in real[key]
                               if real[key].get(k2) != mod[key].get(k2)} for key in real if real[key] != mod[key]}
